@@ -101,6 +101,7 @@ type TypeContract struct {
 	Guarded    map[string]string // field -> mutex field
 	Ghost      map[string]*GhostField
 	LockInv    map[string][]*LockInv // mutex field -> invariants
+	Invs       []*LockInv            // type invariants of thread-confined objects: hold between method calls
 	Guards     map[string][]string   // mutex field -> foreign locations (T.f, pkg.T.f, elems(T)) it also protects
 	Protects   map[string]string     // field -> mutex: the (externally synchronised) object the field points to is protected by mu
 	Sinks      map[string]string     // field -> mutex ("" = none declared): shared sinks written by concurrent requests
@@ -148,7 +149,7 @@ type Contracts struct {
 	Nclause    int
 }
 
-var keywordRe = regexp.MustCompile(`^(spec|pred|axiom|lemma|theorem|globalinv|stablekeys|type|func|iface|functype|extern|props|atomic|holds_read|holds|at_call|after_call|requires|ensures|ensures_panic|ghost_ensures|modifies|loop|assume|nopanic|maypanic|trusted|pure|readsclock|noaxioms|onlyaxioms|wiring|params|immutable|stable|guards|sink|protects|guarded_by|ghost|lockinv|extsync|mutators|insert_only|setup|shared|strings|noinline)\b`)
+var keywordRe = regexp.MustCompile(`^(spec|pred|axiom|lemma|theorem|globalinv|stablekeys|type|func|iface|functype|extern|props|atomic|holds_read|holds|at_call|after_call|requires|ensures|ensures_panic|ghost_ensures|modifies|loop|assume|nopanic|maypanic|trusted|pure|readsclock|noaxioms|onlyaxioms|wiring|params|immutable|stable|guards|sink|protects|guarded_by|ghost|lockinv|extsync|mutators|insert_only|setup|shared|inv|strings|noinline)\b`)
 
 var labelRe = regexp.MustCompile(`^([A-Za-z_][A-Za-z_0-9]*):([^:]|$)`)
 var propsRe = regexp.MustCompile(`^\{([A-Z0-9, ]+)\}\s*`)
@@ -403,6 +404,19 @@ func (cs *Contracts) LoadContractFile(path, pkg string) error {
 				return err
 			}
 			curT.LockInv[m[1]] = append(curT.LockInv[m[1]], &LockInv{Self: m[2], C: c})
+		case "inv":
+			if curT == nil {
+				return fail(l, "inv outside type")
+			}
+			m := regexp.MustCompile(`^\((\w+)\)\s*:?\s*(.*)$`).FindStringSubmatch(rest)
+			if m == nil {
+				return fail(l, "inv (self): EXPR")
+			}
+			c, err := mkClause("inv", m[2], l)
+			if err != nil {
+				return err
+			}
+			curT.Invs = append(curT.Invs, &LockInv{Self: m[1], C: c})
 		case "shared":
 			if curT == nil {
 				return fail(l, "shared outside type")
